@@ -137,6 +137,12 @@ def run(chk):
     exact_threshold_missing(chk)
     bad = thresholds_hq.run_thresholds_hq(chk, 60 if quick else 600)
     chk.oblige("correspondence heavy thresholds (model = every class of heavy/*_nc.py, heavy/*_cc.py)", not bad, str(bad[:2])[:500])
+    for b in bad[:3]:
+        # a disagreement here IS a failing input: a class, a kinematic point, and what the real object did there
+        what = ("beyond the partonic threshold: %s" % b["nonzero_beyond_partonic_threshold"]) if b.get("nonzero_beyond_partonic_threshold") else \
+               ("%d of %d orders empty at x=%r (threshold x=%r)" % (b.get("empty", -1), b.get("orders_seen", -1), b["x"], b.get("x_threshold")) if "x_threshold" in b else str(b))
+        chk.violation("heavy-threshold:%s" % (b.get("nonzero_beyond_partonic_threshold") or [dict(cls="emptiness")])[0]["cls"],
+                      "heavy-quark channel does not respect its threshold at Q2=%r, m2=%r, x=%r: %s" % (b["Q2"], b["m2"], b["x"], what), dict(threshold_case=b))
     bad2 = wlayer.run_combiner(chk, 120 if quick else 1500, fixed=dict(theory=dict(FNS="FFNS")), name="combiner_ffns")
     chk.oblige("correspondence combiner in FFNS (which heavy-quark mass each channel is built with)", not bad2, str(bad2[:1])[:500])
     patrol(chk, 9 if quick else 90)
